@@ -197,8 +197,10 @@ class Engine:
         raise E2Error('function %s not found' % mangled)
 
     def spec_of(self, mangled):
+        v = self.cur.options.get('callee_view') if self.cur is not None else None      # an explicit callee view wins
+        if v == 'base': return self.db.funcs.get(mangled)
+        if v and (mangled + '~' + v) in self.db.funcs: return self.db.funcs[mangled + '~' + v]
         v = getattr(self, 'view', None)
-        if not v and self.cur is not None: v = self.cur.options.get('callee_view')
         if v and (mangled + '~' + v) in self.db.funcs: return self.db.funcs[mangled + '~' + v]
         return self.db.funcs.get(mangled)
 
